@@ -118,7 +118,7 @@ void app_thread(unsigned id, std::vector<Op> ops, std::atomic<unsigned> *done) {
       // (not coap_make_str_const(): it hands out static storage by documentation and is not a per-context call)
       coap_str_const_t nm = {strlen(name), (const uint8_t *)name};
       coap_resource_t *r = coap_resource_init(&nm, 0);
-      if (r) { coap_register_handler(r, COAP_REQUEST_GET, h_get); coap_add_resource(SCTX, r); if (op.arg & 1) std::this_thread::yield(); coap_delete_resource(SCTX, r); }
+      if (r) { coap_register_handler(r, COAP_REQUEST_GET, h_get); coap_add_resource(SCTX, r); if (op.arg & 1) std::this_thread::yield(); coap_delete_resource((op.arg & 2) ? nullptr : SCTX, r); }   // (the context argument is documented as ignored: NULL is a legal way to call it)
       break;
     }
     case 7: {
